@@ -33,7 +33,7 @@ Proof. lia. Qed.
 Lemma digit_char_is_digit d : is_digit (digit_char d) = true.
 Proof.
   destruct d as [|p]; [reflexivity|].
-  destruct p as [[[p|p|]|[p|p|]|]|[[p|p|]|[p|p|]|]|]; reflexivity.
+  do 5 (try (destruct p as [p|p|])); reflexivity.
 Qed.
 Lemma digit_val_char d : (d < 10)%N -> digit_val (digit_char d) = d.
 Proof. intros H. destruct (digit_lt10 d H) as [E|[E|[E|[E|[E|[E|[E|[E|[E|E]]]]]]]]]; subst; reflexivity. Qed.
@@ -152,7 +152,7 @@ Proof.
   intros Hl. induction m; simpl; [reflexivity|].
   destruct (repeat "0"%char m ++ l) eqn:E.
   - destruct m; simpl in E; [contradiction|discriminate].
-  - rewrite <- E. exact IHm.
+  - exact IHm.
 Qed.
 Lemma lstrip0_length l : length (lstrip0 l) <= length l.
 Proof.
@@ -208,6 +208,8 @@ Proof.
   - etransitivity; [apply lstrip0_length|]. rewrite digs_k_length. lia.
 Qed.
 
+Global Opaque digs_k to_digits.
+
 (* ------------------------------------------------------------------ padding *)
 Lemma lpad_length w l : length l <= w -> length (lpad w l) = w.
 Proof. intros H. unfold lpad. rewrite app_length, repeat_length. lia. Qed.
@@ -244,7 +246,7 @@ Lemma py_int_digits a ds b :
   forallb is_digit ds = true -> ds <> [] ->
   py_int (a ++ ds ++ b) = Ok (Z.of_N (of_digits ds)).
 Proof.
-  intros Ha Hb Hd Hne. unfold py_int.
+  intros Ha Hb Hd Hne. unfold py_int, strip_c.
   rewrite strip_with_mid by (auto using digits_nonspace_c).
   destruct ds as [|c t]; [contradiction|].
   rewrite split_sign_digit by (simpl in Hd; apply andb_true_iff in Hd; tauto).
@@ -296,7 +298,7 @@ Lemma parse_float_body a b d v : 1 <= d ->
   forallb is_space_c a = true -> forallb is_space_c b = true ->
   parse_float (a ++ fmt_f_body d v ++ b) = Ok (mkpdec (dneg v) (dmant v) d).
 Proof.
-  intros Hd Ha Hb. unfold parse_float.
+  intros Hd Ha Hb. unfold parse_float, strip_c.
   rewrite strip_with_mid by (auto using fmt_f_body_nonspace).
   unfold fmt_f_body. destruct d as [|d']; [lia|].
   set (ip := to_digits (dmant v / pow10 (S d'))).
@@ -311,12 +313,12 @@ Proof.
     - destruct ip as [|c t]; [contradiction|]. simpl in Hip. apply andb_true_iff in Hip as [Hc _].
       simpl. apply (split_sign_digit c _ Hc). }
   rewrite Hsplit. rewrite span_digits by (auto; reflexivity).
-  change (Ascii.eqb "." ".") with true. rewrite Hfp.
-  destruct ip as [|c t] eqn:Eip; [contradiction|]. simpl negb. simpl andb. cbv iota.
-  rewrite <- Eip. unfold fp at 1 2. rewrite digs_k_length.
-  unfold ip, fp. rewrite to_digits_value, of_digits_digs_k.
-  rewrite N.mod_mod by (apply N.neq_0_lt_0, pow10_pos).
-  rewrite div_mod_pow10. reflexivity.
+  assert (Hnil : isnil ip = false) by (destruct ip; [contradiction|reflexivity]).
+  assert (Hlen : length fp = S d') by apply digs_k_length.
+  assert (Hval : (of_digits ip * pow10 (S d') + of_digits fp)%N = dmant v).
+  { unfold ip, fp. rewrite to_digits_value, of_digits_digs_k.
+    rewrite N.mod_mod by (apply N.neq_0_lt_0, pow10_pos). apply div_mod_pow10. }
+  change (Ascii.eqb "." ".") with true. rewrite Hfp, Hnil, Hlen, Hval. reflexivity.
 Qed.
 
 (* value fits the field: the digits before the point leave room for the point, d decimals
@@ -332,11 +334,11 @@ Proof.
   assert (Hs : length (if dneg v then ["-"%char] else []) = s) by (unfold s; destruct (dneg v); reflexivity).
   rewrite Hs.
   assert (Hs1 : s <= 1) by (unfold s; destruct (dneg v); lia).
-  assert (Hlen : length (to_digits (dmant v / pow10 (S d'))) <= w - 2 - S d' - s).
+  assert (Hlen : length (to_digits (dmant v / pow10 (S d'))) <= w - 1 - S d' - s).
   { apply to_digits_length; [lia|].
     apply N.div_lt_upper_bound; [apply N.neq_0_lt_0, pow10_pos|].
     rewrite <- pow10_add. unfold fits in Hf. fold s in Hf.
-    replace (S d' + (w - 2 - S d' - s)) with (w - 1 - s) by lia. exact Hf. }
+    replace (S d' + (w - 1 - S d' - s)) with (w - 1 - s) by lia. exact Hf. }
   lia.
 Qed.
 
@@ -365,22 +367,23 @@ Lemma digits_no_nl ds : forallb is_digit ds = true -> count_char NL ds = 0.
 Proof. intros H. apply count_char_none. revert H. apply forallb_impl. intros c Hc.
   rewrite digit_not_nl by assumption. reflexivity. Qed.
 Lemma repeat_sp_no c n : Ascii.eqb SP c = false -> count_char c (repeat SP n) = 0.
-Proof. intros H. induction n; simpl; [reflexivity|]. rewrite H, IHn. reflexivity. Qed.
+Proof. intros H. induction n; [reflexivity|]. cbn [repeat count_char]. rewrite H, IHn. reflexivity. Qed.
 
 Lemma fmt_f_dots w d v : 1 <= d -> count_char "."%char (fmt_f w d v) = 1.
 Proof.
   intros Hd. unfold fmt_f, lpad, fmt_f_body. destruct d as [|d']; [lia|].
   rewrite !count_char_app. rewrite repeat_sp_no by reflexivity.
-  assert (H1 : count_char "."%char (if dneg v then ["-"%char] else []) = 0) by (destruct (dneg v); reflexivity).
-  rewrite H1. rewrite digits_no_dot by apply to_digits_digits. simpl.
-  rewrite digits_no_dot by apply digs_k_digits. reflexivity.
+  rewrite (digits_no_dot (to_digits _)) by apply to_digits_digits.
+  cbn [count_char]. rewrite (digits_no_dot (digs_k _ _)) by apply digs_k_digits.
+  destruct (dneg v); reflexivity.
 Qed.
 Lemma fmt_f_no_nl w d v : count_char NL (fmt_f w d v) = 0.
 Proof.
   unfold fmt_f, lpad, fmt_f_body. rewrite !count_char_app. rewrite repeat_sp_no by reflexivity.
-  assert (H1 : count_char NL (if dneg v then ["-"%char] else []) = 0) by (destruct (dneg v); reflexivity).
-  rewrite H1. rewrite digits_no_nl by apply to_digits_digits.
-  destruct d; simpl; [reflexivity|]. rewrite digits_no_nl by apply digs_k_digits. reflexivity.
+  rewrite (digits_no_nl (to_digits _)) by apply to_digits_digits.
+  destruct d.
+  - destruct (dneg v); reflexivity.
+  - cbn [count_char]. rewrite (digits_no_nl (digs_k _ _)) by apply digs_k_digits. destruct (dneg v); reflexivity.
 Qed.
 
 (* ------------------------------------------------------------------ split() *)
